@@ -97,7 +97,7 @@ func TestC15(t *testing.T) {
 
 	outKinds := []string{"", "", "same-dir", "cwd", "abs", "nested-dir", "missing-dir", "is-dir"}
 	pres := []string{"absent", "other", "identical", "stale-broken"}
-	rapidRun(t, env, "inputs", env.Pick(64, 1200), func(rt *rapid.T) {
+	rapidRun(t, env, "inputs", env.Pick(64, 600), func(rt *rapid.T) {
 		p := genSmallProg(rt)
 		accepted := p.Files()
 		base, ok, _ := plainBaseline(env, accepted, pg.SetupPath)
